@@ -74,8 +74,10 @@ type caseT struct {
 	Qstar []rat   `json:"qstar"`
 	P0s   [][]rat `json:"p0s"`
 	Steps []int   `json:"steps"`
+	Rad float64 `json:"rad"` // bowl: radius of the domain
 	// options
-	Combos []combo `json:"combos"`
+	Combos     []combo  `json:"combos"`
+	StartTypes []string `json:"starttypes"`
 
 	index int
 }
@@ -169,6 +171,23 @@ func (c *caseT) objective() scalarF {
 				r = add(r, add(softplus(t), softplus(neg(t))))
 			}
 			return add(r, cst(0)), nil
+		}
+	case "bowl": // -sqrt(R^2 - |x - c|^2): NaN (value and all derivatives) outside the ball
+		return func(x ConstVector) (MagicScalar, error) {
+			var r ConstScalar = cst(c.Rad * c.Rad)
+			for i := 0; i < c.N; i++ {
+				z := sub(x.ConstAt(i), cst(c.M[i].f()))
+				r = sub(r, mul(z, z))
+			}
+			q := NullReal64()
+			q.Sqrt(r)
+			return neg(q), nil
+		}
+	case "xlogx": // x log x - x on x > 0
+		return func(x ConstVector) (MagicScalar, error) {
+			l := NullReal64()
+			l.Log(x.ConstAt(0))
+			return sub(mul(x.ConstAt(0), l), x.ConstAt(0)), nil
 		}
 	case "rosen":
 		return func(x ConstVector) (MagicScalar, error) {
